@@ -822,11 +822,11 @@ def vary_attrs(rng, cfg, files):
         if 'pxhi' in modes and rng.random() < 0.5:
             f['pxhi'] = True
     tkey = cfg['time_order']['key'] if cfg['time_order'] else None
-    if 'acq' in modes and S >= 3 and 'AcquisitionTime' in cfg['tagrules'] and tkey != 'AcquisitionTime':
-        # missing on the lowest and the highest position of every volume: whichever of them ends up first
-        # after sorting / reversal, the conversion must not look at AcquisitionTime at all
+    if 'acq' in modes and 'AcquisitionTime' in cfg['tagrules'] and tkey != 'AcquisitionTime':
+        # AcquisitionTime missing on some files: slice timing must then be left alone (fix 75eb235), whichever
+        # file comes first after sorting / reversal
         for f in files:
-            if f['cell'][0] in (0, S - 1) and 'AcquisitionTime' in f['tags']:
+            if rng.random() < 0.3 and 'AcquisitionTime' in f['tags']:
                 del f['tags']['AcquisitionTime']
     return modes
 
